@@ -49,7 +49,8 @@ RULE = (
     'example; (per_domain) at least two domains. distinct = distinct '
     'canonical case JSON among the non-trivial cases.')
 ASSUMPTIONS = [
-    'documented domain: targets are int32 in [0, num_classes); scores are '
+    'documented domain: targets are integers in [0, num_classes) (int32; for the '
+    'single-label metrics also uint8 / int8 / int16, with up to 17 classes); scores are '
     'finite float32 (or small int32 for the accuracy-type metrics, as in the '
     'docstring examples); example/prediction leaves are jnp arrays',
     'cross-entropy metrics in the general checks: logits restricted to '
@@ -68,6 +69,9 @@ ASSUMPTIONS = [
     'the reference does the same addition with numpy float32 so that ties '
     'created by rounding (1e30 + 1 == 1e30) are ties in the reference too',
     '+0.0 and -0.0 are the same score (IEEE equality) for the tie rule',
+    'a quarter of the single-example cases pass host (numpy, writable) arrays as '
+    'example and prediction instead of jnp arrays; in every case the inputs must '
+    'be byte-identical after evaluate_example',
     'SequenceTruncationRate: truncated = the EOS value occurs nowhere in the '
     'targets (masked positions included) and the sequence is not fully masked',
     'per_domain aggregates are folded with Stat.merge starting from the first '
@@ -147,17 +151,20 @@ def build_metric(spec):
 def build_inputs(spec, target, pred, extra=None):
   """(example, prediction) as the jnp pytrees the docs describe."""
   tk = spec.get('target_key', 'y')
-  t = np.asarray(target, dtype=np.int32)
-  example = {tk: jnp.asarray(t), 'x': jnp.zeros((2,), jnp.float32)}
+  t = np.asarray(target, dtype=spec.get('target_dtype', 'int32'))
+  # host (numpy) arrays are what client datasets hold; they are writable, so a
+  # metric that updates its input in place would change the caller's data
+  arr = (lambda a: np.array(a)) if spec.get('container') == 'numpy' else jnp.asarray
+  example = {tk: arr(t), 'x': jnp.zeros((2,), jnp.float32)}
   if tk != 'y':
     # a decoy under the default key: a metric ignoring target_key reads this.
-    example['y'] = jnp.asarray((t + 1) % max(spec['C'], 1))
+    example['y'] = arr((t + 1) % max(spec['C'], 1))
   if extra:
     example.update(extra)
   if spec['metric'] in TARGET_ONLY:
     prediction = jnp.array([])  # "Unused", as in the docstrings.
   else:
-    p = jnp.asarray(np.asarray(pred, dtype=spec.get('pred_dtype', 'float32')))
+    p = arr(np.asarray(pred, dtype=spec.get('pred_dtype', 'float32')))
     if spec.get('pred_key'):
       prediction = {spec['pred_key']: p, 'aux': jnp.zeros((), jnp.float32)}
     else:
@@ -338,11 +345,23 @@ def _direct(case):
   name = case['metric']
   metric = build_metric(case)
   example, prediction = build_inputs(case, case['target'], case.get('pred'))
+  before = _input_bytes(example, prediction)
   stat = evaluate(metric, case['mode'], example, prediction)
   ref = ref_stat(case, case['target'], case.get('pred'))
   arrays = stat_arrays(stat, ref['kind'], name)
   compare_stat(arrays, ref, name)
+  # evaluating a metric is a pure function of (example, prediction): the inputs
+  # are what they were, so any further metric on them sees the same data
+  require(_input_bytes(example, prediction) == before, name + ':inputs_modified',
+          lambda: f'container {case.get("container", "jnp")}: example/prediction arrays '
+                  'were changed by evaluate_example')
   return metric, example, prediction, arrays, ref
+
+
+def _input_bytes(example, prediction):
+  leaves = jax.tree_util.tree_leaves((example, prediction))
+  return [(str(np.asarray(l).dtype), np.asarray(l).shape, np.asarray(l).tobytes())
+          for l in leaves]
 
 
 def run_single_label(case):
@@ -651,6 +670,14 @@ def draw_spec(draw, tier, family, n_examples):
   c = draw(st.sampled_from(cs))
   spec = {'C': c}
   if family == 'single':
+    # labels are often stored in narrow integer dtypes (uint8 image labels);
+    # with 17 classes target * num_classes no longer fits into 8 bits
+    if draw(st.integers(0, 4)) == 0:
+      c = 17
+      spec['C'] = c
+      spec['target_dtype'] = draw(st.sampled_from(['uint8', 'int8', 'int16', 'int32']))
+    elif draw(st.integers(0, 3)) == 0:
+      spec['target_dtype'] = draw(st.sampled_from(['uint8', 'int8', 'int16']))
     name = draw(st.sampled_from(['CrossEntropyLoss', 'Accuracy', 'TopKAccuracy',
                                  'TopKAccuracy', 'ConfusionMatrix']))
     spec['metric'] = name
@@ -725,6 +752,8 @@ def direct_strategy(family):
       c = spec['C']
       case['cm_classes'] = draw(st.sampled_from([c, c, c, c, c - 1, c + 1]))
     case['mode'] = draw(st.sampled_from(MODES))
+    if draw(st.integers(0, 3)) == 0:
+      case['container'] = 'numpy'
     return case
   return strat
 
@@ -848,6 +877,7 @@ def direct_labels(case):
   preds = [case['pred']] if 'pred' in case else None
   ls = spec_labels(case, [case['target']], preds)
   ls.append('mode:' + case['mode'])
+  ls.append('container:' + case.get('container', 'jnp'))
   if case['metric'] == 'ConfusionMatrix' and case['cm_classes'] != case['C']:
     ls.append('cm_num_classes_mismatch')
   return ls
